@@ -12,7 +12,7 @@ MODULE = "HttpcoreModel.Props.C12"
 THEOREMS = [f"Httpcore.C12.{n}" for n in ("slot_accounting", "open_within_limit", "open_success", "settings_limit", "one_before_settings",
                                            "debt_only_from_lowering", "no_wedge", "settings_never_blocks", "slot_available_when_idle",
                                            "wedge_reachable_107", "own_stream_only", "interleaving_independent",
-                                           "slot_before_stream_id", "settings_change_modelled")] + ["Httpcore.LifeProps.h2_in_use_never_idle", "Httpcore.LifeProps.h2_in_use_never_expires", "Httpcore.LifeProps.h2_in_use_view", "Httpcore.LifeProps.source_releases_starting", "Httpcore.LifeProps.idle_with_stream_107"]
+                                           "slot_before_stream_id", "settings_change_modelled", "acks_leave_with_the_reader")] + ["Httpcore.LifeProps.h2_in_use_never_idle", "Httpcore.LifeProps.h2_in_use_never_expires", "Httpcore.LifeProps.h2_in_use_view", "Httpcore.LifeProps.source_releases_starting", "Httpcore.LifeProps.idle_with_stream_107"]
 TRUSTED = [
     'life-cycle of the connection objects (ConnLife.lean): gate, _response_closed, aclose and the status predicates are *translated* from http11.py / http2.py on every run (harness/lifetrans.py -> Gen.h1*/Gen.h2*); the remaining steps (stream opened / request backed out / GOAWAY / I/O failure recorded) are hand-written and tied by lock-step: instrumented sub-classes log every life-cycle event of the real objects and the Lean driver replays the log (harness/connlife.py, this run)',
     "Lean 4.33 kernel; axioms per theorem under coverage.theorems",
